@@ -31,6 +31,7 @@ import (
 	"encoding/json"
 	"errors"
 	"fmt"
+	"math/bits"
 	"math/rand"
 	"os"
 	"runtime"
@@ -50,6 +51,7 @@ const (
 	vfBLOCKED = -7
 	vfPANIC   = -9
 	vfNA      = -999
+	vfNOTMULT = -888
 )
 
 var errVfSize = errors.New("verif: size of this value cannot be computed")
@@ -84,6 +86,7 @@ type vfAct struct {
 type vfObs struct {
 	Cap   int      `json:"cap"`
 	Sizes []int    `json:"sizes"`
+	Scale string   `json:"scale"`
 	Free  int      `json:"free"`
 	Len   int      `json:"len"`
 	Size  int64    `json:"size"`
@@ -228,6 +231,8 @@ type vfEnv struct {
 	c      *Cache[int, *vfVal]
 	cap    int
 	sizes  []int
+	scale  uint64 // every size and the capacity are multiplied by it for the real cache
+	scaleS string
 	nk     int
 	vals   []*vfVal // index v-1
 	ws     []*vfWorker
@@ -283,7 +288,7 @@ func (e *vfEnv) exec(o vfOp) (res int64, rr []int) {
 	case "Len":
 		return int64(e.c.Len()), nil
 	case "Size":
-		return int64(e.c.Size()), nil
+		return e.units(e.c.Size()), nil
 	case "Range":
 		return 0, e.rangeMap()
 	}
@@ -312,11 +317,43 @@ func (w *vfWorker) loop(ready chan struct{}) {
 	}
 }
 
-func vfNewEnv(cap int, sizes []int, nk, nt int) *vfEnv {
-	e := &vfEnv{cap: cap, sizes: sizes, nk: nk}
-	e.c = NewCache[int, *vfVal](uint64(cap))
+// units converts a size of the real cache to model units: with scale 1 the
+// int64 reading (a wrapped total is negative), otherwise the quotient, or
+// NOTMULT when it is not a multiple of the scale.
+func (e *vfEnv) units(v uint64) int64 {
+	if e.scale <= 1 {
+		return int64(v)
+	}
+	if v%e.scale != 0 {
+		return vfNOTMULT
+	}
+	return int64(v / e.scale)
+}
+
+func vfInitEnv(cap int, sizes []int, nk int, scale string) (*vfEnv, error) {
+	e := &vfEnv{cap: cap, sizes: sizes, nk: nk, scale: 1, scaleS: scale}
+	if scale != "" {
+		u, err := strconv.ParseUint(scale, 10, 64)
+		if err != nil || u == 0 {
+			return nil, fmt.Errorf("bad scale %q", scale)
+		}
+		e.scale = u
+	}
+	hi, lo := bits.Mul64(uint64(cap), e.scale)
+	if hi != 0 {
+		return nil, fmt.Errorf("capacity %d x scale %s does not fit uint64", cap, scale)
+	}
+	e.c = NewCache[int, *vfVal](lo)
 	for i, s := range sizes {
-		e.vals = append(e.vals, &vfVal{id: i + 1, size: uint64(s)})
+		e.vals = append(e.vals, &vfVal{id: i + 1, size: uint64(s) * e.scale})
+	}
+	return e, nil
+}
+
+func vfNewEnv(cap int, sizes []int, nk, nt int, scale string) (*vfEnv, error) {
+	e, err := vfInitEnv(cap, sizes, nk, scale)
+	if err != nil {
+		return nil, err
 	}
 	for t := 1; t <= nt; t++ {
 		w := &vfWorker{env: e, t: t, cmd: make(chan vfOp), ev: make(chan vfEvent, 1),
@@ -326,7 +363,7 @@ func vfNewEnv(cap int, sizes []int, nk, nt int) *vfEnv {
 		go w.loop(ready)
 		<-ready
 	}
-	return e
+	return e, nil
 }
 
 // shutdown lets every goroutine of this environment run to completion.
@@ -366,11 +403,11 @@ func (e *vfEnv) probe() bool {
 }
 
 func (e *vfEnv) observe() vfObs {
-	o := vfObs{Cap: e.cap, Sizes: e.sizes, Len: vfNA, Size: vfNA, Filo: [][2]int{}}
+	o := vfObs{Cap: e.cap, Sizes: e.sizes, Scale: e.scaleS, Len: vfNA, Size: vfNA, Filo: [][2]int{}}
 	if e.probe() {
 		o.Free = 1
 		o.Len = e.c.Len()
-		o.Size = int64(e.c.Size())
+		o.Size = e.units(e.c.Size())
 	}
 	o.Range = e.rangeMap()
 	e.c.RangeFILO(func(k int, v *vfVal) bool {
@@ -378,7 +415,7 @@ func (e *vfEnv) observe() vfObs {
 		return true
 	})
 	// internal (drift only)
-	o.Isz = int64(e.c.size)
+	o.Isz = e.units(e.c.size)
 	o.Idx = make([]int, e.nk)
 	for k := 1; k <= e.nk; k++ {
 		el, ok := e.c.cache.Load(k)
@@ -588,7 +625,11 @@ func vfMaxT(p vfPathIn) int {
 func vfRunPath(p vfPathIn) (out vfPathOut) {
 	out.ID = p.ID
 	out.Steps = []vfStepOut{}
-	e := vfNewEnv(p.InitObs.Cap, p.InitObs.Sizes, len(p.InitObs.Range), vfMaxT(p))
+	e, err := vfNewEnv(p.InitObs.Cap, p.InitObs.Sizes, len(p.InitObs.Range), vfMaxT(p), p.InitObs.Scale)
+	if err != nil {
+		out.Error = err.Error()
+		return
+	}
 	defer e.shutdown()
 	defer func() {
 		if r := recover(); r != nil {
@@ -693,6 +734,7 @@ type vfFreeCfg struct {
 	Cap     int      `json:"cap"`
 	Sizes   []int    `json:"sizes"`
 	NK      int      `json:"nk"`
+	Scale   string   `json:"scale"`
 	Poison  bool     `json:"poison"`
 	Kinds   []string `json:"kinds"`
 	FirstID int      `json:"first_id"`
@@ -728,10 +770,10 @@ func vfFreeTrace(c vfFreeCfg, id int) (out vfPathOut) {
 	out.ID = id
 	out.Steps = []vfStepOut{}
 	rng := rand.New(rand.NewSource(c.Seed*1000003 + int64(id)))
-	e := &vfEnv{cap: c.Cap, sizes: c.Sizes, nk: c.NK}
-	e.c = NewCache[int, *vfVal](uint64(c.Cap))
-	for i, s := range c.Sizes {
-		e.vals = append(e.vals, &vfVal{id: i + 1, size: uint64(s)})
+	e, err := vfInitEnv(c.Cap, c.Sizes, c.NK, c.Scale)
+	if err != nil {
+		out.Error = err.Error()
+		return
 	}
 	defer func() {
 		if r := recover(); r != nil {
@@ -740,7 +782,7 @@ func vfFreeTrace(c vfFreeCfg, id int) (out vfPathOut) {
 			out.Error = fmt.Sprintf("driver panic: %v\n%s", r, buf)
 		}
 	}()
-	lg := &vfLog{blank: vfObs{Cap: c.Cap, Sizes: c.Sizes, Free: 2, Len: vfNA, Size: vfNA,
+	lg := &vfLog{blank: vfObs{Cap: c.Cap, Sizes: c.Sizes, Scale: c.Scale, Free: 2, Len: vfNA, Size: vfNA,
 		Range: make([]int, c.NK), Filo: [][2]int{}, Idx: make([]int, c.NK)}}
 	out.InitObs = e.observe()
 
